@@ -99,7 +99,7 @@ def run(tier, seed):
     chk.assumptions = ['the end scan compares with the tolerance computed by the code (1e-3 * min_seglen); min_seglen itself is an input of the model',
                        'junction sizes of the count formula are read off the statuses (each joined end has exactly one earlier owner end); the '
                        'oracle re-derives them by an independent clustering of the end points']
-    standard_front(chk, 'Props/C12.v', extra_vo=('Model/Topology.v', 'Proofs/TopologyP.v', 'Corr/TopoDriver.v'))
+    standard_front(chk, 'Props/C12.v', needs_items=('gnd_flags',), extra_vo=('Model/Topology.v', 'Proofs/TopologyP.v', 'Corr/TopoDriver.v'))
     rng = random.Random(seed)
     pr = probes()
     good, errs = stage_topo.run_stage(chk, rng, 0, cases=pr + stage_topo.gen_cases(rng, 96 if tier == 'quick' else 4800))
